@@ -40,12 +40,18 @@ Record world := {
   registry : option reg;        (* .exception_registry.json in the core dir; None = no such file *)
   aliases  : option (list N);   (* classes in exception_aliases.py, as codes; None = core not emitted *)
   clients  : reg;               (* generated client packages -> codes whose classes they import from the core *)
-  specs    : reg;               (* generated client packages -> declared statuses of the spec they were generated from *)
+  specs    : reg;               (* generated client packages -> [signature] of the call that generated them *)
   claimed  : list str           (* clients for which some generate call has returned successfully *)
 }.
 Definition init : world := {| registry := None; aliases := None; clients := []; specs := []; claimed := [] |}.
 
-Record gen_call := { g_client : str; g_codes : list N (* declared numeric statuses *); g_force : bool }.
+(* g_core_given = false: generate() is called WITHOUT core_package and resolves it to <client>.core itself
+   (only possible for the client whose directory contains the core).  The registry treats both alike; the
+   only difference is the rich client __init__.py, written (on both paths) only when core_package was given. *)
+Record gen_call := { g_client : str; g_codes : list N (* declared numeric statuses *); g_force : bool;
+                     g_core_given : bool }.
+(* what the emitted client package is a function of: the core_package flag and the declared statuses *)
+Definition signature (g : gen_call) : list N := (if g_core_given g then 1 else 0) :: g_codes g.
 
 Definition amem {V} (k : str) (d : list (str * V)) : bool :=
   match alookup k d with Some _ => true | None => false end.
@@ -75,10 +81,10 @@ Definition step_out_with (l : layout) (ex : bool) (w : world) (g : gen_call) : w
     (* diff path: everything is emitted under a temporary root — the temporary registry starts as a copy of
        the existing one, so the temporary aliases are the union over all clients with this client's entry
        replaced — then compared with the existing files in both directions; nothing under the project root
-       changes.  The call returns iff nothing differs: the client was generated from the same spec (a
+       changes.  The call returns iff nothing differs: the client was generated by a call with the same signature (a
        directory that only holds the core lacks client.py etc.) and the alias classes are up to date. *)
     let ok := amem c (clients w)
-              && match alookup c (specs w) with Some cs => codes_eqb cs (g_codes g) | None => false end
+              && match alookup c (specs w) with Some cs => codes_eqb cs (signature g) | None => false end
               && opt_eqb codes_eqb (aliases w)
                    (Some (union_codes (aset (reg_or_empty (registry w)) c (errs_of g)))) in
     ({| registry := registry w; aliases := aliases w; clients := clients w; specs := specs w;
@@ -92,7 +98,7 @@ Definition step_out_with (l : layout) (ex : bool) (w : world) (g : gen_call) : w
     let reg1 := if is_shared l then Some (aset (reg_or_empty reg0) c (errs_of g)) else reg0 in
     let al := if is_shared l then union_codes (reg_or_empty reg1) else errs_of g in
     ({| registry := reg1; aliases := Some al; clients := aset (clients w) c (imports_of g);
-        specs := aset (specs w) c (g_codes g); claimed := add_str c (claimed w) |}, true).
+        specs := aset (specs w) c (signature g); claimed := add_str c (claimed w) |}, true).
 
 Definition step_out (l : layout) (w : world) (g : gen_call) : world * bool :=
   step_out_with l (dir_exists l w (g_client g)) w g.
